@@ -239,6 +239,7 @@ def run(ctx, R, tier):
                 detail='reached_end() ≺ is_empty()')
     err_ring(F, R)
     err_propagation(F, R)
+    err_flag_writers(F, R)
     # the decoder thread exists at all: into_sound() starts the scheduler on every success path (a streaming sound whose
     # decoder thread is never started stays silent for ever and never reports an error)
     isb = None
@@ -301,6 +302,26 @@ def err_ring(F, R):
         pops = [t for bb, t in pe.calls() if (callee_path(t) or '') == 'rtrb::Consumer::<T>::pop']
         R.check(len(pops) == 1 and 'error_consumer' in describe(pe, pops[0]['args'][0], depth=4), 'B.C10.err-ring', 'pop_error',
                 'pop_error does not pop the error ring', detail='self.error_consumer.pop().ok()')
+
+
+def err_flag_writers(F, R, rule='B.C10.err-order'):
+    """The decoder's error flag is raised once, by the decoder thread, and never lowered: the audio thread's stop-on-error
+    gate depends on it, so nothing else may write it (a handle that takes the flag when it hands the error to the game
+    hides the failure from the audio thread: the sound plays out its buffer and then waits for ever)."""
+    w = []
+    for b in F.bodies:
+        if b.krate != 'kira':
+            continue
+        for bb, t in b.calls():
+            cp = callee_path(t) or ''
+            if cp.startswith('std::sync::atomic::Atomic') and cp.split('::')[-1] in ('store', 'swap', 'fetch_and', 'fetch_or', 'fetch_xor', 'fetch_nand', 'compare_exchange', 'compare_exchange_weak', 'fetch_update'):
+                d = describe(b, t['args'][0], depth=5, at=bb)
+                if 'encountered_error' in d:
+                    v = describe(b, t['args'][1], at=bb) if len(t['args']) > 1 else '?'
+                    w.append((b.path.split('::{closure')[0], cp.split('::')[-1], v))
+    good = len(w) == 1 and w[0][0].endswith('DecodeScheduler::<Error>::start') and w[0][1] == 'store' and w[0][2] == 'True'
+    R.check(good, rule, 'flag:writers', 'encountered_error is written by %s (expected: one `store(true)` in the decoder thread loop)' % [(a.split('::')[-1], o, v) for a, o, v in w][:3],
+            detail={'writers': len(w)})
 
 
 def err_gate_first(F, R, rule='B.C10.err-stop'):
